@@ -67,7 +67,9 @@ def run(tier: str, seed: int) -> int:
                        "synchronous scheduler here; schedulers are C18's subject"]
     quick = tier == "quick"
     jobs, plan = [], []
-    for kind, cat, rkind, rcat in (CONFIGS[:3] if quick else CONFIGS):
+    # quick: point x polygon, line x polygon, point x multiline (sjoin needs points on the left; points ON right lines are decided
+    # hits, so right shapes that merely touch a one-row partition's degenerate extent matter)
+    for kind, cat, rkind, rcat in ([CONFIGS[0], CONFIGS[1], CONFIGS[4]] if quick else CONFIGS):
         js = shard_jobs("MC_DaskFrame", dict(constants=dict(Kind=kind, Elems="<- " + cat, RKind=rkind, RElems="<- " + rcat, MaxOps=3,
                                                            N=2 if quick else 3, KeyStride=21 if quick else 5),
                                             invariants=["DaskExact", "CacheFresh"]), 64 if quick else 16, which=range(0, 4) if quick else None,
